@@ -11,7 +11,7 @@ use std::collections::VecDeque;
 use std::pin::Pin;
 use std::sync::{Arc, Mutex};
 use std::task::{Context, Poll, Waker};
-use tokio_util::codec::Encoder;
+use tokio_util::codec::{Decoder, Encoder};
 
 #[derive(Debug, Clone)]
 pub struct MockErr(pub String);
@@ -50,6 +50,11 @@ pub struct SinkState {
     pub brk: Option<String>,
     /// run the real wire encoder on start_send and fail like the real sink if it refuses
     pub encode_check: bool,
+    /// with `encode_check`: the bytes written and not yet looked at -- the write buffer of the real
+    /// framed writer persists across sends, so whatever a refused frame leaves behind goes out too
+    pub wire: BytesMut,
+    /// the byte stream no longer decodes to the frames that were accepted
+    pub wire_broken: bool,
     pub waker: Option<Waker>,
     pub recv: Vec<Frame>,
     pub flushed: usize,
@@ -69,6 +74,8 @@ impl SinkHandle {
             flush_ok: true,
             brk: None,
             encode_check: false,
+            wire: BytesMut::new(),
+            wire_broken: false,
             waker: None,
             recv: vec![],
             flushed: 0,
@@ -155,11 +162,30 @@ impl Sink<Frame> for MockSink {
             self.ev("si_send", "err", d);
             return Err(MockErr("send".into()));
         }
+        let mut d = d;
         if self.h.st().encode_check {
-            let mut scratch = BytesMut::new();
-            if let Err(e) = MessageCodec.encode(item.clone(), &mut scratch) {
+            let r = {
+                let mut st = self.h.st();
+                MessageCodec.encode(item.clone(), &mut st.wire)
+            };
+            if let Err(e) = r {
                 self.ev("si_send", "err", merge(d, json!({"why": e.to_string()})));
                 return Err(MockErr(format!("encode: {e}")));
+            }
+            // what the peer reads from the bytes written since the last look: exactly this frame
+            let wire_ok = {
+                let mut st = self.h.st();
+                if !st.wire_broken {
+                    let got = MessageCodec.decode(&mut st.wire);
+                    let ok = matches!(&got, Ok(Some(f)) if *f == item) && st.wire.is_empty();
+                    if !ok {
+                        st.wire_broken = true;
+                    }
+                }
+                !st.wire_broken
+            };
+            if !wire_ok {
+                d = merge(d, json!({"intact": false, "wire_ok": false}));
             }
         }
         self.h.st().recv.push(item);
